@@ -23,7 +23,8 @@ PID = "C01"
 
 
 def gen(cfg, simulate, seed, depth=12):
-    g = vf.tlc("MC_DeckSyntax", cfg, simulate=simulate, depth=depth, seed=seed, workers=4, timeout=2400)
+    g = vf.tlc("MC_DeckSyntax", cfg, simulate=simulate, depth=depth, seed=seed, workers=4, timeout=2400, dedupe_gen=True, max_gen=60000)
+    g.out = ""
     seen, out = set(), []
     for x in g.gen:
         key = json.dumps(x["text"], sort_keys=True)
@@ -95,9 +96,9 @@ def run(opts):
         bases = {x["base"]: x for x in gen("Base_DeckSyntax.cfg", 3, 1, depth=2)}
         if len(bases) != 3:
             raise vf.ToolingError("expected 3 base decks from TLC, got %d" % len(bases))
-        gens = gen("Gen_DeckSyntax.cfg", chk.pick(60, 1200), chk.seed % 100000)
+        gens = gen("Gen_DeckSyntax.cfg", chk.pick(60, 400), chk.seed % 100000)
         # shorter rewrite chains as well: a single rewrite isolates its rule
-        gens += gen("Gen1_DeckSyntax.cfg", chk.pick(40, 400), chk.seed % 100000 + 1, depth=4)
+        gens += gen("Gen1_DeckSyntax.cfg", chk.pick(40, 150), chk.seed % 100000 + 1, depth=4)
     scripts = []
     for b, x in bases.items():
         scripts.append({"id": "base-" + b, "files": decklay.render(x["text"], random.Random(1))})
